@@ -25,6 +25,10 @@ NOT_DECIDED = ["equality of the rebuilt object with the original (needs executio
 def run(ctx, ss):
     for r, f in (("C11.1", c11_1), ("C11.2", c11_2), ("C11.3", c11_3), ("C11.4", c11_4), ("C11.5", c11_5), ("C11.6", c11_6), ("C11.7", c11_7), ("C11.7", c11_7b), ("C11.7", c11_7c), ("C11.7", c11_8)):
         ctx.guard(r, f, ss)
+    # C11.8: nothing on the way from the observed entry points is memoised on a parser / tree / path / container (shared.py)
+    from .shared import memo_for
+    ctx.guard("C11.8", memo_for, ss, "C11", "C11.8", "a conversion")
+    ctx.guard("C11.1", chain_ctor_clauses, ss, "C11.1")
 
 
 def c11_1(ctx, ss):
@@ -115,6 +119,21 @@ def ctor_clauses(ctx, ss, rule):
     okm = sorted(keys_) == ["model", "model_params"] and bool(ents) and ents[-1][0] == "**" and all(isinstance(v, ast.Constant) and v.value == "" for k_, v in ents if k_ != "**")
     (ctx.holds if okm else ctx.violation)(rule, k + " :: defaults", where(ff, ff.node),
                                           "metadata starts with the two default keys, then takes the user's" if okm else "metadata defaults are missing or overwrite the user's values")
+
+
+def chain_ctor_clauses(ctx, ss, rule):
+    """DecayChain(mother, decays) keeps exactly what it is given (shared by C11, C12 and C13: every conversion, flattening and
+    descriptor reads the chain through these two attributes)"""
+    ff, flow = fn(ss, DECAY, "DecayChain.__init__")
+    p_m, p_d = ff.params[1], ff.params[2]
+    k = ckey(ff, None, "chain-ctor")
+    for attr, par in (("mother", p_m), ("decays", p_d)):
+        st = [s for s in pf.iter_stmts(ff.node.body) if isinstance(s, ast.Assign) and txt(s.targets[0]) == f"self.{attr}"]
+        v = txt(flow.expand(st[0].value)) if len(st) == 1 else None
+        ok = len(st) == 1 and v in (par, f"dict({par})", f"{par}.copy()", f"copy.copy({par})", f"copy({par})", f"{{**{par}}}") \
+            and not [c for c in guards.path_conditions(ff.node, st[0], skip_raise_guards=True) if c[0] == "if"]
+        (ctx.holds if ok else ctx.violation)(rule, k + f" :: {attr}", where(ff, st[0] if st else ff.node),
+                                              f"self.{attr} = the {attr} given" if ok else f"the chain does not keep the {attr} it is given unchanged (stores `{v}`): entries are dropped, added or reordered")
 
 
 def c11_2(ctx, ss):
